@@ -240,6 +240,15 @@ def solve(pc, goal, timeout_ms):
     s.add(neg)
     smt_text = s.to_smt2()
     size = len(smt_text)
+    from .relax import relaxed_unsat
+
+    if "(* " in smt_text or "(/ " in smt_text:
+        if relaxed_unsat(list(pc) + [neg], min(timeout_ms, 5000)):
+            return "unsat", None, "z3-nlsat(int-relaxed)", time.time() - t0, size
+        from .relax import linear_unsat
+
+        if linear_unsat(list(pc) + [neg], min(timeout_ms, 5000)):
+            return "unsat", None, "z3(linear-abstraction)", time.time() - t0, size
     first = min(timeout_ms, 4000)
     s.set("timeout", first)
     r = s.check()
@@ -259,7 +268,9 @@ def solve(pc, goal, timeout_ms):
             return "sat", m, "z3-4.8.12", time.time() - t0, size
     # relaxation: Int constants read as Reals (drops integrality only => every model of the original is a
     # model of the relaxation, so `unsat` carries over; `sat` here proves nothing and is discarded)
-    if _relaxed(smt_text, timeout_ms) == "unsat":
+    from .relax import relaxed_unsat
+
+    if relaxed_unsat(list(pc) + [neg], min(timeout_ms, 10000)):
         return "unsat", None, "z3-nlsat(int-relaxed)", time.time() - t0, size
     if _cvc5(smt_text, timeout_ms) == "unsat":
         return "unsat", None, "cvc5", time.time() - t0, size
@@ -637,11 +648,22 @@ class Prover:
                 vals = {n: t.make(n, ctx) for n, t in shape.items()}
                 ctx.arg_values = vals
                 for rq in c.all_requires():
-                    pre = _spec_call(ctx, rq, vals, contracts)
+                    try:
+                        pre = _spec_call(ctx, rq, vals, contracts)
+                    except E.PyRaise:
+                        raise E.PathEnd()  # the precondition text is undefined here: not a state in the domain
                     ctx.assume(it.truthy(pre) if not isinstance(pre, bool) else pre)
                 # obligations raised while evaluating the precondition text (callee preconditions inside
                 # `requires`) are about the contract, not the code: they are re-checked natively by replay
                 ctx.obligations = [o for o in ctx.obligations if not o[0].startswith("call:")] if getattr(c, "drop_requires_obligations", True) else ctx.obligations
+                # proof hints ("split hard obligations into lemmas"): each hint is an OBLIGATION under the
+                # precondition (proved on its own, typically a real-arithmetic identity that nlsat decides)
+                # and only then added to the path as a known fact for the integer reasoning that follows
+                for hn, hf in getattr(c, "hints", {}).items():
+                    hg = _spec_call(ctx, hf, vals, contracts)
+                    hg = it.truthy(hg) if not isinstance(hg, bool) else hg
+                    ctx.oblige(f"hint:{hn}", hg, {"kind": "hint"})
+                    ctx.assume(hg)
                 ctx.n_pre = len(ctx.pc)
                 if isinstance(c, LoopUnit):
                     return _run_loop_body(it, c, vals)
@@ -700,7 +722,7 @@ class Prover:
             if not ur.reachable:
                 # cover: the precondition is satisfiable and this path is reachable
                 s = z3.Solver()
-                s.set("timeout", 5000)
+                s.set("timeout", 1500)
                 s.add(*ctx.pc)
                 if s.check() == z3.sat:
                     ur.reachable = True
@@ -896,6 +918,8 @@ class Prover:
             if key not in seen:
                 seen.add(key)
             v = self.native_check(c, args)
+            if v["status"] != "skip":
+                ur.reachable = True  # a concrete input satisfies the precondition and was executed
             if v["status"] == "fail":
                 o = Obl(f"{c.id}/native:{v.get('clause', '?')}", "native")
                 o.status = "violated"
